@@ -1,1 +1,21 @@
 //! Hooks for property C21.
+//!
+//! `RevertibleMarket::new` is `pub(crate)` and `EventEmitter` is a crate-private type; this
+//! wrapper only makes the existing constructor callable from the verification harness. All reads
+//! and writes then go through the public `gmsol_model` traits implemented by `RevertibleMarket`,
+//! and commit goes through the public `Revertible::commit`.
+use anchor_lang::prelude::*;
+
+use crate::{
+    events::EventEmitter,
+    states::market::{revertible::RevertibleMarket, Market},
+};
+
+/// Start a revertible operation on `market` (no virtual inventories).
+pub fn revertible_market<'a, 'info>(
+    market: &'a AccountLoader<'info, Market>,
+    event_authority: &'a AccountInfo<'info>,
+    bump: u8,
+) -> Result<RevertibleMarket<'a, 'info>> {
+    RevertibleMarket::new(market, None, EventEmitter::new(event_authority, bump))
+}
